@@ -23,15 +23,25 @@ def sh(cmd, cwd=None, check=True):
     return p.returncode, p.stdout
 
 def main():
+    global REPO, SCR, OUT
     only = None
+    prop = None
     write = "--write" in sys.argv
     keep = "--keep" in sys.argv
     if "--only" in sys.argv:
         only = set(sys.argv[sys.argv.index("--only") + 1].split(","))
+    if "--property" in sys.argv:
+        prop = sys.argv[sys.argv.index("--property") + 1]
+    if "--repo" in sys.argv:
+        REPO = sys.argv[sys.argv.index("--repo") + 1]
+    if "--tag" in sys.argv:
+        tag = sys.argv[sys.argv.index("--tag") + 1]
+        SCR, OUT = SCR + "-" + tag, OUT + "-" + tag
     muts = json.load(open(os.path.join(ROOT, "selftest", "mutants.json")))
     sh("./check C19 quick >/dev/null 2>&1 || true", cwd=ROOT, check=False)  # make sure the binary is built
     sh("git -C %s worktree remove --force %s 2>/dev/null; rm -rf %s %s" % (REPO, SCR, SCR, OUT), check=False)
     sh("git -C %s worktree add -q --detach %s HEAD" % (REPO, SCR))
+    sh("git -C %s diff HEAD > %s/.wt.diff; cd %s && (test -s .wt.diff && git apply .wt.diff && git add -A && git -c user.email=x -c user.name=x commit -qm wt || true); rm -f .wt.diff" % (REPO, SCR, SCR), check=False)
     os.makedirs(OUT, exist_ok=True)
     shutil.copy(os.path.join(ROOT, "known_findings.txt"), OUT) if os.path.exists(os.path.join(ROOT, "known_findings.txt")) else None
     rows = []
@@ -39,6 +49,8 @@ def main():
     try:
         for m in muts:
             if only and m["id"] not in only:
+                continue
+            if prop and m["property"] != prop:
                 continue
             sh("git checkout -q -- . && git clean -fdq", cwd=SCR)
             path = os.path.join(SCR, m["file"])
